@@ -116,6 +116,7 @@ func (x *Exec) buildVC(o *Obligation) *VC {
 		vc.Asserts = append(vc.Asserts, boxAxioms()...)
 	}
 	vc.Asserts = append(vc.Asserts, uuidAxioms()...)
+	vc.Asserts = append(vc.Asserts, constArrayAxioms()...)
 	if _, ok := symTab["unix_epoch"]; ok {
 		vc.Asserts = append(vc.Asserts, Gt(unixEpoch(), Int(0)))
 	}
